@@ -525,11 +525,6 @@ func main() {
 			w := vec.W
 			rd("valid", w, nil, false, vec.V)
 			rd("valid_zero_init", w, nil, true, vec.V)
-			if o.Key == "o0" || vec.Probe {
-				if x := headerLie(rr, w); x != nil {
-					rd("header_lie", x, nil, false, nil)
-				}
-			}
 			if o.Key != "o0" || vec.Probe || vec.Light {
 				if ins := valgen.AllInsertions(rr, s, w); len(ins) > 0 {
 					rd(valgen.PInsertUnknown, ins[rr.Intn(len(ins))], nil, false, vec.V)
@@ -808,53 +803,6 @@ func lastLine(s string) string {
 		}
 	}
 	return firstLine(s)
-}
-
-// headerLie returns a copy of w in which the element-type byte(s) of one container header (anywhere in the
-// tree) name another wire type while the elements stay as they are; the generated reader never looks at
-// those bytes. nil when w holds no container.
-func headerLie(r *rng.R, w *valgen.W) *valgen.W {
-	c := w.Clone()
-	var nodes []*valgen.W
-	var walk func(x *valgen.W)
-	walk = func(x *valgen.W) {
-		switch x.T {
-		case valgen.TStruct:
-			for _, f := range x.Fields {
-				walk(f.V)
-			}
-		case valgen.TList, valgen.TSet:
-			nodes = append(nodes, x)
-			for _, y := range x.L {
-				walk(y)
-			}
-		case valgen.TMap:
-			nodes = append(nodes, x)
-			for _, kv := range x.M {
-				walk(kv[0])
-				walk(kv[1])
-			}
-		}
-	}
-	walk(c)
-	if len(nodes) == 0 {
-		return nil
-	}
-	n := rng.Pick(r, nodes)
-	other := func(t byte) byte {
-		for {
-			o := rng.Pick(r, valgen.AllTTypes)
-			if o != t {
-				return o
-			}
-		}
-	}
-	if n.T == valgen.TMap && r.Bool() {
-		n.KT = other(n.KT)
-	} else {
-		n.ET = other(n.ET)
-	}
-	return c
 }
 
 // isFixture: a struct of the fixed families added by AddProbe / AddNameCoincidence (or synthesized for their services)
